@@ -3,7 +3,8 @@
 # X02 Who-Is/I-Am/Who-Has binding, X03 atomic file services); same contract as the registered checks
 TIER="${1:-quick}"
 cd "$(dirname "$0")/.."
-for p in X01 X02 X03; do
+for p in X01 X02 X03 X04 X05 X06; do
+  [ -f harness/drivers/$(echo $p | tr A-Z a-z).py ] || continue
   s=$(date +%s); out=$(bin/check $p --tier $TIER 2>&1); rc=$?; e=$(date +%s)
   echo "$p rc=$rc wall=$((e-s))s $(echo "$out" | grep -c '^VIOLATION') viol, $(echo "$out" | grep -c '^KNOWN-FINDING') known | $(echo "$out" | tail -1 | cut -c1-160)"
 done
